@@ -90,6 +90,10 @@ macro_rules! eq_table {
     };
 }
 
+/// constants for a `matching!` guard whose outermost operator is `||` (Macro kind 4)
+const ALWAYS: bool = true;
+const NEVER: bool = false;
+
 macro_rules! family {
     ($modname:ident, $bound:ident, $answer:ty, $uty:ty) => {
         pub mod $modname {
@@ -128,7 +132,7 @@ macro_rules! family {
                             1 => unimock::matching!((1) | (2) | (6)),
                             2 => unimock::matching!(2..=5),
                             3 => unimock::matching!((x) if *x % 2 == 1),
-                            4 => unimock::matching!(_),
+                            4 => unimock::matching!((eq!(&3)) if ALWAYS || NEVER),
                             5 => unimock::matching!(eq!(&4)),
                             6 => unimock::matching!((0) | (1) | (2) | (3) | (4) | (5) | (6) | (7)),
                             _ => unimock::matching!((0 | 1) | (3..=5)),
